@@ -308,6 +308,7 @@ func (v *View) checkC05(res *Result) {
 		_ = lastOwn
 	}
 	// (iii) promotion callback token equals the token of an acquisition write by that instance
+	handed := map[string]map[string]bool{}
 	for idx, e := range v.Ev {
 		if e.Kind != "cb.promote" {
 			continue
@@ -316,6 +317,14 @@ func (v *View) checkC05(res *Result) {
 		if !acqTok[e.Inst][e.Token] {
 			res.viol("C05", "promote-token", "promote-token-not-in-record", fmt.Sprintf("%s promoted with token %s that it never published", e.Inst, e.Token), idx)
 		}
+		// every term has a token of its own: the same token is never handed to two promotions
+		if handed[e.Inst] == nil {
+			handed[e.Inst] = map[string]bool{}
+		}
+		if handed[e.Inst][e.Token] {
+			res.viol("C05", "promote-token", "promote-token-handed-twice", fmt.Sprintf("%s: token %s handed to a second promotion callback (a term's promotion received another term's token)", e.Inst, e.Token), idx)
+		}
+		handed[e.Inst][e.Token] = true
 	}
 	// (iv) at quiescent points while leader: Token()/Status().Token equal the token of its latest own record version
 	own := map[string]string{}
@@ -436,6 +445,11 @@ func (v *View) checkC08(res *Result) {
 	// called the callback yet: samples taken meanwhile are not judged
 	parked := make([]bool, len(v.Ev))
 	np := 0
+	// likewise a call into user code (logger, metrics, health) of an instance held by the
+	// harness for a stretch of virtual time: the library is stopped between two steps of a
+	// sequence (flag down ... callback), samples of that instance taken meanwhile are not judged
+	held := map[string]int{}
+	heldAt := make([]map[string]bool, len(v.Ev))
 	for idx, e := range v.Ev {
 		if e.Op == "yield:promoteGoroutineEntry" {
 			switch e.Kind {
@@ -445,7 +459,18 @@ func (v *View) checkC08(res *Result) {
 				np--
 			}
 		}
+		if isUserCodeOp(e.Op) {
+			switch e.Kind {
+			case "break.hit":
+				held[e.Inst]++
+			case "break.release":
+				held[e.Inst]--
+			}
+		}
 		parked[idx] = np > 0
+		if e.Kind == "quiescent" && held[e.Inst] > 0 {
+			heldAt[idx] = map[string]bool{e.Inst: true}
+		}
 	}
 	for idx, e := range v.Ev {
 		switch e.Kind {
@@ -497,7 +522,7 @@ func (v *View) checkC08(res *Result) {
 			if e.Snap == nil || e.S == "final" {
 				continue
 			}
-			if v.inStopAt(e.Inst, idx) || parked[idx] {
+			if v.inStopAt(e.Inst, idx) || parked[idx] || heldAt[idx] != nil {
 				continue
 			}
 			res.Obs["c08.quiescent_checks"]++
@@ -512,7 +537,7 @@ func (v *View) checkC08(res *Result) {
 	// (a) exactly one promotion per term (judged at the first quiescent point after the term start)
 	for _, t := range v.All {
 		q := v.nextQuiescent(t.Inst, t.Up)
-		for q >= 0 && parked[q] {
+		for q >= 0 && (parked[q] || heldAt[q] != nil) {
 			q = v.nextQuiescent(t.Inst, q)
 		}
 		if q < 0 {
